@@ -236,7 +236,7 @@ class CallMixin(StmtMixin):
         if fi.is_generator:
             yield from self.make_generator(st, fi, args, kwargs, node, ctx)
             return
-        allowed = (c is not None and c.inline) or fi.key in self.inline_ok or self.inline_all
+        allowed = (c is not None and c.inline) or fi.key in self.inline_ok or fi.key in self.reg.inline or self.inline_all
         if not allowed:
             raise Unsupported(f"call to {fi.key}, which has no contract (and is not marked inline)", node)
         yield from self.inline_call(st, fi, args, kwargs, node)
@@ -551,6 +551,12 @@ class CallMixin(StmtMixin):
                     else:
                         yield st1, Raised(ExcVal("ValueError"))
                 return
+        if name == "builtins.object.__setattr__":
+            obj, attr, val = args
+            if isinstance(obj, Ref) and isinstance(attr, str) and st.obj(obj).kind == "obj":
+                yield st.heap_set(obj, attr, val), None
+                return
+            raise Unsupported("object.__setattr__ on a non-object", node)
         if name in ("typing.cast", "builtins.cast"):
             yield st, args[1]
             return
